@@ -135,6 +135,9 @@ func(_aes_cbc_enc_128_x8)
 	endbranch
 	FUNC_SAVE
 
+	test	LEN, LEN
+	jz	done		; nothing to do for a zero length
+
 	mov	IDX, 0
 
 	FILL_KEY_CACHE	 CKEY_CNT, FIRST_CKEY, KEYS, MOVDQ
